@@ -89,6 +89,8 @@ def shared():
     _S["rulesets"]["default_then_boom"] = pattern.RewriteRuleSet(
         [*rewriter._DEFAULT_REWRITE_RULES, Boom.rule()]
     )
+    # commuted variants share ONE rule-class instance (one stash) among several RewriteRule objects
+    _S["rulesets"]["layer_norm_commute"] = pattern.RewriteRuleSet(list(_layer_norm.layer_normalization_rules), commute=True)
     _S["rulesets"]["boom_first"] = pattern.RewriteRuleSet([Boom.rule(), *rewriter._DEFAULT_REWRITE_RULES])
     return _S
 
@@ -117,6 +119,8 @@ class Monitor:
                     continue
                 seen_rules.add(id(rule))
                 cf = getattr(rule, "_condition_function", None)
+                if getattr(cf, "_c14_wrapper", False):
+                    continue
                 inst = getattr(cf, "__self__", None)
                 if inst is None or not hasattr(inst, "rewrite"):
                     continue
@@ -184,8 +188,11 @@ class Monitor:
                 mon.phase = None
                 mon.end()
 
+        check._c14_wrapper = True
         rule._condition_function = check
-        repl._function = rewrite
+        if not getattr(repl, "_c14_wrapped", False):  # commuted rules share the replacement object
+            repl._function = rewrite
+            repl._c14_wrapped = True
 
     def begin(self, rname):
         if self.cur is not None:
@@ -287,6 +294,33 @@ def ser_ir(m) -> bytes:
     return S["ir"].serde.serialize_model(m).SerializeToString()
 
 
+def _consts_of(proto_bytes: bytes, sub_only: bool = False) -> list:
+    import numpy as np
+    from onnx import numpy_helper
+
+    S = shared()
+    m = S["onnx"].ModelProto()
+    m.ParseFromString(proto_bytes)
+    cs = []
+
+    def walk(g, top):
+        for n in g.node:
+            if n.op_type == "Constant" and not (top and sub_only):
+                for a in n.attribute:
+                    if a.name == "value":
+                        cs.append(np.asarray(numpy_helper.to_array(a.t)).reshape(-1).astype(np.int64).tolist())
+                    elif a.name == "value_int":
+                        cs.append([int(a.i)])
+                    elif a.name == "value_ints":
+                        cs.append([int(v) for v in a.ints])
+            for a in n.attribute:
+                if a.HasField("g"):
+                    walk(a.g, False)
+
+    walk(m.graph, True)
+    return cs
+
+
 def op_script(op: dict) -> dict:
     """Decorate one generated function with the shared decorator; observe its protos."""
     from harness import scriptgen
@@ -329,15 +363,24 @@ def op_script(op: dict) -> dict:
                 if isinstance(val, dict) and val.get("inplace") and isinstance(cur, list):
                     cur[:] = val["inplace"]
                 elif isinstance(val, dict) and "ndarray" in val:
-                    if val.get("inplace_nd") and isinstance(cur, np.ndarray):
+                    if val.get("inplace_nd") == "imul" and isinstance(cur, np.ndarray):
+                        cur *= int(val["ndarray"][0])
+                    elif val.get("inplace_nd") and isinstance(cur, np.ndarray):
                         cur[...] = np.array(val["ndarray"], dtype=cur.dtype)
                     else:
                         setattr(mod, gname, np.array(val["ndarray"], dtype=np.int64))
+                elif isinstance(val, dict) and "tensorproto" in val:
+                    from onnx import numpy_helper as _nh
+
+                    new = _nh.from_array(np.array(val["tensorproto"], dtype=np.int64), cur.name)
+                    cur.CopyFrom(new)  # in-place mutation of the TensorProto object
                 else:
                     setattr(mod, gname, val)
             mp2 = f.to_model_proto().SerializeToString()
             fp2 = f.to_function_proto().SerializeToString()
             res["after_mutation_equal"] = (mp2 == mp[0]) and (fp2 == fp0)
+            if op.get("want_consts"):
+                res["consts_after"] = _consts_of(mp2, bool(op.get("in_loop")))
             if "eager_x" in op:
                 try:
                     res["eager_after"] = np.asarray(f(x)).astype(np.int64).tolist()
@@ -346,27 +389,19 @@ def op_script(op: dict) -> dict:
         if op.get("proto_overrides"):
             # to_model_proto(**overrides) on a function created by the process-wide decorator object, then plain again
             kw_before = dict(f.kwargs)
+            plain_before = f.to_model_proto().SerializeToString()
             try:
                 res["override_digest"] = _sha(f.to_model_proto(**kw_decode(op["proto_overrides"])).SerializeToString())
             except Exception as e:  # noqa: BLE001
                 res["override_digest"] = "ERR:" + type(e).__name__
-            res["plain_after_override_equal"] = f.to_model_proto().SerializeToString() == mp[0]
+            res["plain_after_override_equal"] = f.to_model_proto().SerializeToString() == plain_before
             res["kwargs_unchanged"] = dict(f.kwargs) == kw_before
         if op.get("want_consts"):
             from onnx import numpy_helper
 
             m = S["onnx"].ModelProto()
             m.ParseFromString(mp[0])
-            cs = []
-            for n in m.graph.node:
-                if n.op_type == "Constant":
-                    for a in n.attribute:
-                        if a.name == "value":
-                            cs.append(np.asarray(numpy_helper.to_array(a.t)).reshape(-1).astype(np.int64).tolist())
-                        elif a.name == "value_int":
-                            cs.append([int(a.i)])
-                        elif a.name == "value_ints":
-                            cs.append([int(v) for v in a.ints])
+            cs = _consts_of(mp[0], bool(op.get("in_loop")))
             res["consts"] = cs
             if "eager_x" in op:
                 try:
@@ -617,7 +652,11 @@ def op_opset(op: dict) -> dict:
 
     o = values.Opset(op["domain"], int(op["version"]))
     o2 = values.Opset(op["domain"], int(op["version"]))
-    obs = {"fields": [o.domain, o.version], "same_instance": o is o2}
+    from onnxscript import opset18 as _o18
+
+    base18 = values.Opset("", 18)
+    obs = {"fields": [o.domain, o.version], "same_instance": o is o2,
+           "subclass": [type(_o18)() is _o18, base18 is not _o18, [base18.domain, base18.version], [_o18.domain, _o18.version]]}
     return {"k": "opset", "err": None, "digest": _sha(json.dumps(obs).encode()), **obs}
 
 
@@ -647,6 +686,40 @@ def op_conv_reuse(op: dict) -> dict:
     return {"k": "conv_reuse", "err": None, "digest": last["digest"], "ops": last["ops"]}
 
 
+def op_evalctx(op: dict) -> dict:
+    """`with evaluator.default_as(e): body` (body may raise, nests); afterwards the default evaluator must be back."""
+    from onnxscript._internal import evaluator
+
+    class Ev(evaluator.ORTEvaluator):
+        def __init__(self, k):
+            super().__init__()
+            self.k = k
+
+    base = evaluator.default()
+    seen: list = []
+
+    def run(evs):
+        for e in evs:
+            if e == "s":
+                d = evaluator.default()
+                seen.append(getattr(d, "k", 0))
+            elif e == "r":
+                raise RuntimeError("injected failure inside default_as")
+            else:
+                with evaluator.default_as(Ev(int(e[0]))):
+                    run(e[1])
+
+    raised = False
+    try:
+        with evaluator.default_as(Ev(int(op["b"]))):
+            run(op["body"])
+    except RuntimeError:
+        raised = True
+    g = 0 if evaluator.default() is base else getattr(evaluator.default(), "k", -1)
+    obs = {"global": g, "seen": seen, "raised": raised}
+    return {"k": "evalctx", "err": "RuntimeError" if raised else None, "digest": _sha(json.dumps(obs).encode()), **obs}
+
+
 OPS = {
     "script": op_script,
     "model": op_model,
@@ -656,6 +729,7 @@ OPS = {
     "opset": op_opset,
     "conv_reuse": op_conv_reuse,
     "kwseq": op_kwseq,
+    "evalctx": op_evalctx,
 }
 
 
